@@ -2,6 +2,7 @@ package main
 
 import (
 	"go/ast"
+	"go/token"
 	"go/types"
 	"sort"
 )
@@ -252,4 +253,57 @@ func independentClauses(sites []storeSite, F, G string) (bool, string) {
 		}
 	}
 	return true, ""
+}
+
+// pointeeGuards: conditions in a String method of the form
+// `x.F != nil && *x.F <cmp> ...` for a pointer-typed field F that the parser
+// stores as `&v` whatever v is: printing is then conditional on the value,
+// though the statement records the clause even for the value the test excludes.
+type pointeeGuard struct {
+	field string
+	cond  ast.Expr
+}
+
+func (p *Program) pointeeGuards(str *types.Func) []pointeeGuard {
+	fd := p.FuncDecls[str]
+	if fd == nil || fd.Body == nil || fd.Recv == nil || len(fd.Recv.List) == 0 || len(fd.Recv.List[0].Names) == 0 {
+		return nil
+	}
+	recv := p.Info.Defs[fd.Recv.List[0].Names[0]]
+	var out []pointeeGuard
+	ast.Inspect(fd.Body, func(n ast.Node) bool {
+		is, ok := n.(*ast.IfStmt)
+		if !ok {
+			return true
+		}
+		// fields dereferenced inside a comparison of the condition
+		ast.Inspect(is.Cond, func(m ast.Node) bool {
+			be, ok := m.(*ast.BinaryExpr)
+			if !ok {
+				return true
+			}
+			switch be.Op {
+			case token.GTR, token.GEQ, token.LSS, token.LEQ, token.NEQ, token.EQL:
+			default:
+				return true
+			}
+			for _, side := range []ast.Expr{be.X, be.Y} {
+				star, ok := ast.Unparen(side).(*ast.StarExpr)
+				if !ok {
+					continue
+				}
+				sel, ok := ast.Unparen(star.X).(*ast.SelectorExpr)
+				if !ok {
+					continue
+				}
+				if id := identOf(sel.X); id == nil || p.Info.ObjectOf(id) != recv {
+					continue
+				}
+				out = append(out, pointeeGuard{field: sel.Sel.Name, cond: is.Cond})
+			}
+			return true
+		})
+		return true
+	})
+	return out
 }
